@@ -32,6 +32,8 @@ def reviewed : List (String × String × String) :=
    ("Root.replaceArgVars", "tv", "sorted-keys"),
    ("Root.validateDirUse", "du.Args", "sorted-keys"),
    ("VerifParseExe", "exe.Ops", "append"),                        -- verification hook (build tag verif), sorts its output itself
+   ("mergeValue", "ta", "none"),                                  -- merges the entries of the later object into a new map
+   ("mergeValue", "tp", "none"),                                  -- copies the entries of the earlier object into a new map
    ("typeList.dup", "tl.dict", "none"),                           -- copies the entries into a new map
    ("writeMap", "m", "none"),                                     -- the documented unsorted mode (`ggql.Sort == false`)
    ("writeMap", "m", "sorted-keys")]
